@@ -223,6 +223,10 @@ func GetAttr(v Value, attr Value, args ...Value) (Value, error) {
 	case reflect.Struct:
 		strval := CoerceString(attr)
 		retval = r.FieldByName(strval)
+		if retval.IsValid() && !retval.CanInterface() {
+			// Unexported fields cannot be read through reflection.
+			retval = reflect.Value{}
+		}
 		if !retval.IsValid() {
 			var err error
 			retval, err = getMethod(v, strval)
@@ -231,7 +235,9 @@ func GetAttr(v Value, attr Value, args ...Value) (Value, error) {
 			}
 		}
 	case reflect.Map:
-		retval = r.MapIndex(reflect.ValueOf(attr))
+		if key, ok := mapKey(attr, r.Type().Key()); ok {
+			retval = r.MapIndex(key)
+		}
 	case reflect.Slice, reflect.Array:
 		index := int(CoerceNumber(attr))
 		if index >= 0 && index < r.Len() {
@@ -253,6 +259,16 @@ func GetAttr(v Value, attr Value, args ...Value) (Value, error) {
 		if t.NumIn() != len(rargs) {
 			return nil, fmt.Errorf("getattr: method \"%s\" on \"%v\" expects %d parameter(s), %d given", attr, v, t.NumIn(), len(rargs))
 		}
+		for k := range rargs {
+			pt := t.In(k)
+			if t.IsVariadic() && k == t.NumIn()-1 {
+				pt = pt.Elem()
+			}
+			var ok bool
+			if rargs[k], ok = methodArg(rargs[k], pt); !ok {
+				return nil, fmt.Errorf("getattr: method \"%s\" on \"%v\" cannot use argument %d (%v) as %s", attr, v, k+1, args[k], pt)
+			}
+		}
 		res := retval.Call(rargs)
 		if len(res) == 0 {
 			return nil, nil
@@ -260,6 +276,69 @@ func GetAttr(v Value, attr Value, args ...Value) (Value, error) {
 		retval = res[0]
 	}
 	return retval.Interface(), nil
+}
+
+// mapKey converts attr into a key usable with a map whose key type is kt, applying
+// the usual coercions between strings, numbers and booleans. It returns false if
+// attr cannot be used as a key of that type.
+func mapKey(attr Value, kt reflect.Type) (reflect.Value, bool) {
+	av := reflect.ValueOf(attr)
+	if av.IsValid() && av.Type().AssignableTo(kt) {
+		if !av.Type().Comparable() {
+			return reflect.Value{}, false
+		}
+		return av, true
+	}
+	switch kt.Kind() {
+	case reflect.String:
+		return reflect.ValueOf(CoerceString(attr)).Convert(kt), true
+	case reflect.Int, reflect.Int8, reflect.Int16, reflect.Int32, reflect.Int64:
+		n := CoerceNumber(attr)
+		if n != float64(int64(n)) || reflect.Zero(kt).OverflowInt(int64(n)) {
+			return reflect.Value{}, false
+		}
+		return reflect.ValueOf(int64(n)).Convert(kt), true
+	case reflect.Uint, reflect.Uint8, reflect.Uint16, reflect.Uint32, reflect.Uint64:
+		n := CoerceNumber(attr)
+		if n < 0 || n != float64(uint64(n)) || reflect.Zero(kt).OverflowUint(uint64(n)) {
+			return reflect.Value{}, false
+		}
+		return reflect.ValueOf(uint64(n)).Convert(kt), true
+	case reflect.Float32, reflect.Float64:
+		return reflect.ValueOf(CoerceNumber(attr)).Convert(kt), true
+	case reflect.Bool:
+		return reflect.ValueOf(CoerceBool(attr)).Convert(kt), true
+	}
+	return reflect.Value{}, false
+}
+
+// methodArg converts arg so that it can be passed as a parameter of type pt. Numbers
+// are converted between numeric kinds and nil becomes the zero value of nilable types.
+func methodArg(arg reflect.Value, pt reflect.Type) (reflect.Value, bool) {
+	if !arg.IsValid() {
+		switch pt.Kind() {
+		case reflect.Interface, reflect.Ptr, reflect.Map, reflect.Slice, reflect.Func, reflect.Chan:
+			return reflect.Zero(pt), true
+		}
+		return arg, false
+	}
+	if arg.Type().AssignableTo(pt) {
+		return arg, true
+	}
+	if isNumericKind(arg.Kind()) && isNumericKind(pt.Kind()) {
+		return arg.Convert(pt), true
+	}
+	return arg, false
+}
+
+func isNumericKind(k reflect.Kind) bool {
+	switch k {
+	case reflect.Int, reflect.Int8, reflect.Int16, reflect.Int32, reflect.Int64,
+		reflect.Uint, reflect.Uint8, reflect.Uint16, reflect.Uint32, reflect.Uint64,
+		reflect.Float32, reflect.Float64:
+		return true
+	}
+	return false
 }
 
 func getMethod(v Value, name string) (reflect.Value, error) {
